@@ -192,7 +192,7 @@ class Relay(evx.System):
     settings['DYNAMIC_ROUTER'] = p.get('dynamic', False)
     settings['DYNAMIC_ROUTER_MAX_RETRIES'] = p.get('max_retries', 1)
     settings['DESTINATION_PROTOCOL'] = p.get('protocol', 'pickle')
-    settings['DESTINATION_POOL_REPLICAS'] = False
+    settings['DESTINATION_POOL_REPLICAS'] = bool(p.get('pool'))
     settings['DESTINATIONS'] = [dest_str(d) for d in self.dests]
     settings['program'] = 'carbon-relay'
     settings['RELAY_METHOD'] = p.get('relay_method', 'rules')
@@ -245,6 +245,8 @@ class Relay(evx.System):
     self.stop_exc = None
     self.root = MultiService()
     saved_reactor_cwr = None
+    if self.p.get('pool'):
+      client.setUpRandomResolver = lambda reactor: None     # DNS answer shuffling: nothing is resolved here
     service.setupPipeline(['relay'], self.root, self.settings)
     self.cm = state.client_manager
     self.root.startService()
@@ -602,6 +604,10 @@ class Relay(evx.System):
       c = self.connector(d)
       if c is not None and c.state == 'connected' and self.q[d]:
         return ('stuck-queue', 'quiescent (connected, unpaused, no timer pending) but %r still holds %r' % (d, self.q[d]))
+      if c is not None and c.state == 'disconnected' and self.q[d] and not self.reactor.clock.getDelayedCalls():
+        # nobody is connected, nobody will retry, nothing was counted as discarded: the datapoints are simply abandoned
+        return ('abandoned-queue', 'quiescent with %r disconnected for good (no retry pending%s) while %r are still queued for it: never '
+                'written, never re-routed, not counted as discarded' % (d, ', after stop' if self.stopped else '', self.q[d]))
     return None
 
   # ---- quiescence (C09) ---------------------------------------------------------------------------------------------
